@@ -125,7 +125,9 @@ MUTANTS: dict[str, list[tuple]] = {
          "if item_id <= 0:", True, "id > n accepted or IndexError"),
         ("no_bin_low", BP + "packing_space.py",
          "if (bin_id <= 0) or (bin_id > inst.n_items):",
-         "if bin_id > inst.n_items:", True, "bin id <= 0 accepted"),
+         "if bin_id > inst.n_items:", False,
+         "equivalent: a bin id <= 0 makes min(bins) != 1, which the "
+         "contiguity clause rejects (false-alarm probe)"),
         ("no_bin_high", BP + "packing_space.py",
          "if (bin_id <= 0) or (bin_id > inst.n_items):",
          "if bin_id <= 0:", False,
